@@ -122,6 +122,10 @@ def run(ctx):
     parsed = []
     decl_family = ["decltype(std::declval<const T&>()) a;", "decltype(new T) b;", "decltype(static_cast<unsigned long>(y))* c;",
                    "const decltype(sizeof(long double))& d = e;", "void f(decltype(a + b) x, decltype(const_cast<const int*>(p)) y);",
+                   # unparsed expressions inside the type in which a word-like token stands next to a literal of every class
+                   "int (*w1)[N and 3];", "A<sizeof 4> w2;", "int w3[not 0];", "int w4[N xor 0x1F];", "int w5[sizeof 'c'];", "decltype(a or 1.5f) w6;",
+                   "int w7[N bitand 0b11];", "A<sizeof 010, N and 2u> w8;", "int w9[sizeof \"s\"];", "A<sizeof u8\"s\", sizeof L'c'> w10;",
+                   "int w11[N or 1e3];", "A<sizeof 1.0, sizeof 0x1p3> w12;", "int (&w13)[compl 7 and true];",
                    "std::vector<decltype(new int)> g;", "typename T::template U<int>::type h;", "unsigned long long i; long double j; signed char k;",
                    # shapes the parser rejects today: should a change make it accept them, what it produces must format back
                    "int (&&x)[3];", "int (&&r)(int);", "int ((*x))[3];", "void (*(*f)(int))(char);", "int (*&r)[3] = a;", "int (S::*pm)(int);",
